@@ -16,7 +16,7 @@ for l in open('/verif/properties.jsonl'):
 if not ids:
     ids = sorted(props)
 os.makedirs(base, exist_ok=True)
-tmpl = open('/verif/tools/seed_prompt.tmpl').read()
+tmpl = open(os.environ.get('SEED_TMPL', '/verif/tools/seed_prompt.tmpl')).read()
 for pid in ids:
     p = props[pid]
     d = os.path.join(base, pid)
@@ -41,7 +41,7 @@ for pid in ids:
         f.write("\nEarlier changes already tried for this property (choose a different site AND a different mechanism):\n")
         for e in earlier:
             f.write(f" - {e}\n")
-    pr = tmpl.replace('/tmp/seed4/@ID@', f'{base}/{pid}').replace('@ID@', pid)
+    pr = tmpl.replace('@BASE@', base).replace('@ID@', pid)
     with open(os.path.join(base, f'prompt-{pid}.txt'), 'w') as f:
         f.write(pr)
     print(os.path.join(base, f'prompt-{pid}.txt'))
